@@ -38,6 +38,10 @@ func init() {
 		rt + "Stub":      inStub,
 		rt + "Merge":     inMerge,
 		rt + "Symbolic":  func(ex *Exec, c *callCtx) (Value, bool) { return ex.tt.True, true },
+		rt + "AllocLimit": func(ex *Exec, c *callCtx) (Value, bool) {
+			ex.AllocLimit = int(c.args[0].(*Term).U64())
+			return nil, true
+		},
 		rt + "AllowPanic": func(ex *Exec, c *callCtx) (Value, bool) { ex.AllowPanic = true; return nil, true },
 
 		"crypto/sha256.Sum256": inSum256,
